@@ -81,6 +81,10 @@ func c13Gen(r *driver.Rand, thorough bool) *driver.Plan {
 	case 2:
 		p.CancelAtEnd = true
 	}
+	if p.CancelStep < 0 && p.CancelMs == 0 && !p.CancelAtEnd && r.Chance(1, 6) {
+		p.SetX("uses", 2)
+		p.SetX("cancel_between", 1) // used, cancelled, used again under a new context
+	}
 	if p.CancelMs > 0 && r.Chance(1, 2) {
 		p.SetX("ctx_deadline", 1) // the context carries a deadline (cancelled one nanosecond before it)
 	}
@@ -121,7 +125,13 @@ func c13Enum(thorough bool) []*driver.Plan {
 
 func c13BuildOne(e *driver.Env) { e.Data = BuildStage(e, "C13.a") }
 
-func c13Build(e *driver.Env) { c13BuildOne(e) }
+func c13Build(e *driver.Env) {
+	if e.Plan.X("cancel_between") == 1 {
+		driver.Phased(e, c13BuildOne, c13Final)
+		return
+	}
+	c13BuildOne(e) // no second use without a cancel: the first pacer lives until then
+}
 
 func c13Final(e *driver.Env) {
 	s := e.Data.(*Sys)
